@@ -65,7 +65,84 @@ func randConfig(r *rand.Rand) Config {
 
 // ---- world -----------------------------------------------------------------------
 
+// injectHandler is installed as litestream's logger: it lets the harness commit an
+// application transaction at the n-th log record emitted during a litestream
+// operation, i.e. BETWEEN the steps of the sync / checkpoint protocols, on the
+// goroutine that runs them (deterministic interleavings).
+type injectHandler struct{ w *World }
+
+func (h injectHandler) Enabled(context.Context, slog.Level) bool { return true }
+func (h injectHandler) WithAttrs([]slog.Attr) slog.Handler       { return h }
+func (h injectHandler) WithGroup(string) slog.Handler            { return h }
+func (h injectHandler) Handle(_ context.Context, r slog.Record) error {
+	w := h.w
+	if w.injectIn <= 0 || w.injecting {
+		return nil
+	}
+	w.injectIn--
+	if w.injectIn == 0 {
+		w.injecting = true
+		err := w.injectWrite()
+		w.injecting = false
+		res := "ok"
+		if err != nil {
+			res = "busy"
+		}
+		w.trace = append(w.trace, fmt.Sprintf("INJ[%s:%s]", r.Message, res))
+	}
+	return nil
+}
+
+// injectWrite commits one small transaction through a connection that fails fast
+// when litestream holds the write lock (busy_timeout 0), so it can never deadlock
+// with the operation it interrupts.
+func (w *World) injectWrite() error {
+	if w.injConn == nil {
+		db, err := sql.Open("sqlite", "file:"+w.dbPath+"?_pragma=busy_timeout(0)")
+		if err != nil {
+			return err
+		}
+		db.SetMaxOpenConns(1)
+		w.injConn = db
+	}
+	// a commit that lands while an acknowledged operation is running may or may not be covered by
+	// that acknowledgement: remember the state just before it as the alternative reference
+	tmp := filepath.Join(w.dir, "tmp-inj")
+	os.MkdirAll(tmp, 0o755)
+	before, _ := refImage(w.dbPath, tmp)
+	tx, err := w.injConn.Begin()
+	if err != nil {
+		return err
+	}
+	defer func() {
+		if before != nil && w.injRef == nil {
+			w.injRef = before
+		}
+	}()
+	w.version++
+	if _, err := tx.Exec("INSERT INTO u(v) VALUES (randomblob(60))"); err != nil {
+		tx.Rollback()
+		w.version--
+		return err
+	}
+	if _, err := tx.Exec("UPDATE ver SET n=?", w.version); err != nil {
+		tx.Rollback()
+		w.version--
+		return err
+	}
+	if err := tx.Commit(); err != nil {
+		w.version--
+		return err
+	}
+	return nil
+}
+
 type World struct {
+	injectIn  int  // commit an application transaction at the n-th next log record (0 = disarmed)
+	injecting bool
+	injConn   *sql.DB
+	useInject bool
+	injRef    []byte // committed image just before the commit injected during the CURRENT operation (nil: none)
 	dir        string
 	dbPath     string
 	replicaDir string
@@ -138,6 +215,9 @@ func (w *World) newLitestream() *litestream.DB {
 	db.ShutdownSyncTimeout = 0
 	db.BusyTimeout = 200 * time.Millisecond
 	db.Logger = QuietLogger()
+	if w.useInject {
+		db.Logger = slog.New(injectHandler{w})
+	}
 	c := file.NewReplicaClient(w.replicaDir)
 	db.Replica = litestream.NewReplicaWithClient(db, c)
 	db.Replica.MonitorEnabled = false
@@ -351,7 +431,7 @@ func (w *World) ackOracle(rc *Recorder, what string) {
 	}
 	out := filepath.Join(tmp, "restored.db")
 	if err := restoreTo(w.replicaDir, out, 0, true); err != nil {
-		rc.violate("C01/restore-fails-after-ack", fmt.Sprintf("%s acknowledged but restore failed: %v", what, err), w)
+		rc.violate("C01/restore-fails-after-ack", fmt.Sprintf("%s acknowledged but restore failed: %v%s", what, err, w.l0Summary()), w)
 		return
 	}
 	rc.restores++
@@ -363,6 +443,18 @@ func (w *World) ackOracle(rc *Recorder, what string) {
 	ps := w.cfg.PageSize
 	d := diffPages(ref, got, ps)
 	if len(d) == 0 {
+		return
+	}
+	if w.injRef != nil {
+		// an application commit landed while the acknowledged call was running: the state just
+		// before that commit is an equally valid "source at that moment"
+		if d2 := diffPages(w.injRef, got, ps); len(d2) == 0 {
+			return
+		} else if acceptableDiff(w, w.injRef, got, d2, tmp) {
+			return
+		}
+	}
+	if acceptableDiff(w, ref, got, d, tmp) {
 		return
 	}
 	// only litestream's own sequence row (bumped after its final copy) may differ
@@ -393,6 +485,44 @@ func (w *World) ackOracle(rc *Recorder, what string) {
 	rc.violate("C01/restore-differs-from-source",
 		fmt.Sprintf("%s acknowledged; restored image differs from the source's committed image on pages %v (size ref=%d got=%d, logical dump equal=%v)",
 			what, trunc(bad, 12), len(ref), len(got), refD == gotD), w)
+}
+
+// acceptableDiff: the differing pages are only litestream's own sequence-row page and the
+// page-1 change counters.
+func acceptableDiff(w *World, ref, got []byte, d []int, tmp string) bool {
+	ps := w.cfg.PageSize
+	refPath := filepath.Join(tmp, "refimg2.db")
+	os.WriteFile(refPath, ref, 0o644)
+	seq := tableRoots(refPath, "_litestream_seq")["_litestream_seq"]
+	os.Remove(refPath)
+	for _, p := range d {
+		switch {
+		case p == seq && seq != 0:
+		case p == 1 && page1OnlyCounters(ref, got, ps):
+		default:
+			return false
+		}
+	}
+	return true
+}
+
+// l0Summary describes the newest local level-0 files (diagnostics for replay files).
+func (w *World) l0Summary() string {
+	if w.ldb == nil {
+		return ""
+	}
+	l0 := w.localL0()
+	if len(l0) > 5 {
+		l0 = l0[len(l0)-5:]
+	}
+	var b strings.Builder
+	b.WriteString("; newest L0 files:")
+	for _, t := range l0 {
+		if o, err := readL0(w.ldb.LTXPath(0, ltx.TXID(t), ltx.TXID(t))); err == nil {
+			fmt.Fprintf(&b, " [txid=%d off=%d size=%d salts=%d/%d commit=%d pgnos=%v]", t, o.walOffset, o.walSize, o.salt1, o.salt2, o.commit, o.pgnos)
+		}
+	}
+	return b.String()
 }
 
 func trunc(a []int, n int) []int {
@@ -526,6 +656,11 @@ var ctxb = context.Background()
 func (w *World) lsOp(rc *Recorder, op string) error {
 	ctx, cancel := context.WithTimeout(ctxb, 60*time.Second)
 	defer cancel()
+	w.injRef = nil
+	if w.useInject && op != "S1" && w.rng.Intn(2) == 0 {
+		w.injectIn = 1 + w.rng.Intn(30)
+	}
+	defer func() { w.injectIn = 0; w.injRef = nil }()
 	switch op {
 	case "S":
 		_ = w.ldb.Sync(ctx)
@@ -724,6 +859,23 @@ func (w *World) step(rc *Recorder, op string) {
 	if err != nil {
 		rc.violate("harness/op-error", fmt.Sprintf("op %s: %v", op, err), w)
 	}
+	if os.Getenv("VERIF_DEBUG") != "" {
+		var wsz int64
+		var s1, s2 uint32
+		if b, e := os.ReadFile(w.dbPath + "-wal"); e == nil {
+			wsz = int64(len(b))
+			if len(b) >= 32 {
+				s1, s2 = binary.BigEndian.Uint32(b[16:]), binary.BigEndian.Uint32(b[20:])
+			}
+		}
+		st := w.ldb.VerifSyncState()
+		l0 := w.localL0()
+		var last uint64
+		if len(l0) > 0 {
+			last = l0[len(l0)-1]
+		}
+		fmt.Fprintf(os.Stderr, "DBG %-12s wal=%d salts=%d/%d committedEnd=%d pos=%d toEnd=%v lastOff=%d ver=%d\n", op, wsz, s1, s2, walEnd(w.dbPath+"-wal"), last, st.SyncedToWALEnd, st.LastSyncedWALOffset, w.version)
+	}
 }
 
 // runC01 runs one random history over the C01 alphabet (litestream running throughout).
@@ -734,11 +886,21 @@ func runC01(rc *Recorder, dir string, rng *rand.Rand, steps int) error {
 		return err
 	}
 	defer func() { w.closeReader(); w.app.Close() }()
+	w.useInject = rng.Intn(2) == 0
 	w.ldb = w.newLitestream()
 	if err := w.ldb.Open(); err != nil {
 		return err
 	}
+	defer func() {
+		if w.injConn != nil {
+			w.injConn.Close()
+		}
+	}()
 	w.trace = append(w.trace, "OPEN")
+	nv0 := len(rc.violations)
+	// the daemon's monitor syncs right after Open; Close before the very first sync is the
+	// separate scenario runCloseBeforeFirstSync
+	w.step(rc, "S")
 	for i := 0; i < steps; i++ {
 		var op string
 		if rng.Intn(100) < 55 {
@@ -750,13 +912,18 @@ func runC01(rc *Recorder, dir string, rng *rand.Rand, steps int) error {
 			op = "W"
 		}
 		w.step(rc, op)
-		if len(rc.violations) > 0 {
+		if len(rc.violations) > nv0 {
 			break
 		}
 	}
 	w.closeReader()
 	w.trace = append(w.trace, "CLOSE")
+	w.injRef = nil
+	if w.useInject && rng.Intn(2) == 0 {
+		w.injectIn = 1 + rng.Intn(30)
+	}
 	w.closeLitestream(rc)
+	w.injectIn = 0
 	rc.cw.Classes[fmt.Sprintf("ps=%d", cfg.PageSize)]++
 	rc.cw.Classes[fmt.Sprintf("av=%d", cfg.AutoVacuum)]++
 	rc.cw.Classes[fmt.Sprintf("maxb=%d", cfg.MaxSyncWALBytes)]++
@@ -765,6 +932,55 @@ func runC01(rc *Recorder, dir string, rng *rand.Rand, steps int) error {
 
 // lastTrace is the history of the run that just finished (config + op tokens).
 var lastTrace string
+
+// runScript runs an explicit op list (replay of minimised histories, known findings).
+func runScript(rc *Recorder, dir string, rng *rand.Rand, script, cfgs string) error {
+	var c Config
+	var ci int64
+	fmt.Sscanf(cfgs, "%d,%d,%d,%d,%d,%d", &c.PageSize, &c.AutoVacuum, &c.MinCheckpointPageN, &c.TruncatePageN, &ci, &c.MaxSyncWALBytes)
+	c.CheckpointInterval = time.Duration(ci)
+	w, err := newWorld(dir, c, rng)
+	if err != nil {
+		return err
+	}
+	defer func() { w.closeReader(); w.app.Close() }()
+	w.ldb = w.newLitestream()
+	if err := w.ldb.Open(); err != nil {
+		return err
+	}
+	w.trace = append(w.trace, "OPEN")
+	for _, op := range strings.Fields(script) {
+		if op == "CLOSE" {
+			break
+		}
+		w.step(rc, op)
+	}
+	w.trace = append(w.trace, "CLOSE")
+	w.closeLitestream(rc)
+	return nil
+}
+
+// runCloseBeforeFirstSync: Open, one application commit, Close — with no sync in between
+// (the monitor's first tick has not happened yet).
+func runCloseBeforeFirstSync(rc *Recorder, dir string, rng *rand.Rand) error {
+	cfg := Config{PageSize: 4096, MinCheckpointPageN: 1000}
+	w, err := newWorld(dir, cfg, rng)
+	if err != nil {
+		return err
+	}
+	defer func() { w.closeReader(); w.app.Close() }()
+	w.ldb = w.newLitestream()
+	if err := w.ldb.Open(); err != nil {
+		return err
+	}
+	w.scenario = "close-before-first-sync"
+	w.trace = append(w.trace, "OPEN W CLOSE (no sync in between)")
+	if err := w.appWrite(rc); err != nil {
+		return err
+	}
+	w.closeLitestream(rc)
+	return nil
+}
 
 func main() {
 	slog.SetDefault(QuietLogger())
@@ -775,6 +991,8 @@ func main() {
 	seed := fl.Int64("seed", 1, "PRNG seed")
 	mode := fl.String("mode", "c01", "c01 | c02 | c04")
 	only := fl.Int("only", -1, "run only the history with this index (replay)")
+	script := fl.String("script", "", "mode script: space-separated op tokens to run after OPEN (e.g. 'S CK-RESTART W ACK-TRUNCATE DDL SW')")
+	scriptCfg := fl.String("cfg", "4096,0,10,0,0,0", "mode script: ps,autovacuum,minCheckpointPageN,truncatePageN,checkpointIntervalNs,maxSyncWALBytes")
 	if err := fl.Parse(os.Args[1:]); err != nil {
 		os.Exit(2)
 	}
@@ -811,9 +1029,19 @@ func main() {
 		var err error
 		switch *mode {
 		case "c01":
-			err = runC01(rc, dir, rng, *steps)
+			if i == 0 {
+				err = runCloseBeforeFirstSync(rc, dir, rng)
+			} else {
+				err = runC01(rc, dir, rng, *steps)
+			}
+		case "script":
+			err = runScript(rc, dir, rng, *script, *scriptCfg)
 		case "c02":
-			err = runC02(rc, dir, rng, *steps)
+			if i%3 == 2 {
+				err = runC02Preexisting(rc, dir, rng)
+			} else {
+				err = runC02(rc, dir, rng, *steps)
+			}
 		case "c04":
 			err = runC04(rc, dir, rng, i)
 		}
